@@ -11,6 +11,7 @@ import (
 	"path/filepath"
 	"strings"
 
+	"github.com/regclient/regclient/zz_verif/audit"
 	rm "github.com/regclient/regclient/zz_verif/regmodel"
 )
 
@@ -122,6 +123,12 @@ func readRawIndex(dir string) rawIndex {
 		return rawIndex{Exists: true, Problem: "index.json unreadable: " + err.Error()}
 	}
 	ri := rawIndex{Exists: true}
+	// raw JSON against the OCI image-index schema (shared engine + the members it leaves out)
+	if ps := audit.IndexSchemaProblems(b); len(ps) > 0 {
+		ri.Problem = "violates the OCI image-index schema: " + ps[0]
+	} else if prob := extraIndexSchema(b); prob != "" {
+		ri.Problem = "index.json violates the OCI image-index schema: " + prob
+	}
 	var idx struct {
 		SchemaVersion *int   `json:"schemaVersion"`
 		MediaType     string `json:"mediaType"`
@@ -133,7 +140,9 @@ func readRawIndex(dir string) rawIndex {
 		} `json:"manifests"`
 	}
 	if err := json.Unmarshal(b, &idx); err != nil {
-		ri.Problem = "index.json is not valid JSON: " + err.Error()
+		if ri.Problem == "" {
+			ri.Problem = "index.json is not valid JSON: " + err.Error()
+		}
 		return ri
 	}
 	if idx.SchemaVersion == nil || *idx.SchemaVersion != 2 {
@@ -215,4 +224,123 @@ func readBlobFile(dir, dig string) ([]byte, bool) {
 		return nil, false
 	}
 	return b, true
+}
+
+// ---- raw JSON schema checks (no Go struct in between: null / missing / wrongly typed members stay visible) ----
+
+func jsonKind(raw json.RawMessage) string {
+	t := strings.TrimSpace(string(raw))
+	switch {
+	case t == "":
+		return "missing"
+	case t == "null":
+		return "null"
+	case t[0] == '{':
+		return "object"
+	case t[0] == '[':
+		return "array"
+	case t[0] == '"':
+		return "string"
+	case t == "true" || t == "false":
+		return "bool"
+	}
+	return "number"
+}
+
+func jsonObject(raw json.RawMessage) (map[string]json.RawMessage, string) {
+	if k := jsonKind(raw); k != "object" {
+		return nil, "is " + k + ", not an object"
+	}
+	var m map[string]json.RawMessage
+	if err := json.Unmarshal(raw, &m); err != nil {
+		return nil, "is not valid JSON: " + err.Error()
+	}
+	return m, ""
+}
+
+func jsonString(raw json.RawMessage) (string, bool) {
+	if jsonKind(raw) != "string" {
+		return "", false
+	}
+	var s string
+	return s, json.Unmarshal(raw, &s) == nil
+}
+
+func checkStringMap(raw json.RawMessage) string {
+	m, prob := jsonObject(raw)
+	if prob != "" {
+		return prob
+	}
+	for k, v := range m {
+		if _, ok := jsonString(v); !ok {
+			return fmt.Sprintf("member %q is %s, not a string", k, jsonKind(v))
+		}
+	}
+	return ""
+}
+
+// extraIndexSchema extends audit.IndexSchemaProblems (shared engine: top-level object,
+// schemaVersion 2, "manifests" an array, entries with string mediaType / digest, integer
+// size >= 0, annotations object of strings) by the remaining typed members of the OCI
+// image-index / descriptor schema: top-level annotations and artifactType, subject, and
+// per entry urls, platform, data, artifactType.
+func extraIndexSchema(b []byte) string {
+	top, prob := jsonObject(b)
+	if prob != "" {
+		return "document " + prob
+	}
+	if v, has := top["artifactType"]; has {
+		if _, ok := jsonString(v); !ok {
+			return "artifactType is " + jsonKind(v) + ", not a string"
+		}
+	}
+	if a, has := top["annotations"]; has {
+		if prob := checkStringMap(a); prob != "" {
+			return "annotations " + prob
+		}
+	}
+	descExtras := func(raw json.RawMessage) string {
+		d, prob := jsonObject(raw)
+		if prob != "" {
+			return prob
+		}
+		if u, has := d["urls"]; has {
+			var l []json.RawMessage
+			if jsonKind(u) != "array" || json.Unmarshal(u, &l) != nil {
+				return "urls is " + jsonKind(u) + ", not an array"
+			}
+			for _, x := range l {
+				if _, ok := jsonString(x); !ok {
+					return "urls holds a non-string"
+				}
+			}
+		}
+		for _, k := range []string{"artifactType", "data"} {
+			if v, has := d[k]; has {
+				if _, ok := jsonString(v); !ok {
+					return k + " is " + jsonKind(v) + ", not a string"
+				}
+			}
+		}
+		if pl, has := d["platform"]; has {
+			if _, prob := jsonObject(pl); prob != "" {
+				return "platform " + prob
+			}
+		}
+		return ""
+	}
+	var l []json.RawMessage
+	if json.Unmarshal(top["manifests"], &l) == nil {
+		for i, e := range l {
+			if prob := descExtras(e); prob != "" {
+				return fmt.Sprintf("manifests[%d]: %s", i, prob)
+			}
+		}
+	}
+	if sj, has := top["subject"]; has {
+		if prob := descExtras(sj); prob != "" {
+			return "subject: " + prob
+		}
+	}
+	return ""
 }
